@@ -13,6 +13,9 @@ for d in sorted(glob.glob("seeded/*/")):
         continue
     meta = json.load(open(d + "meta.json"))
     pid = meta["property"]
+    if meta.get("obsolete"):
+        rows.append((name, pid, "OBSOLETE (equivalent on the current tree)", ""))
+        continue
     ap = subprocess.run(["git", "-C", REPO, "apply", os.path.abspath(d + "patch.diff")], capture_output=True, text=True)
     if ap.returncode != 0:
         rows.append((name, pid, "PATCH DOES NOT APPLY", ap.stderr.strip()[:100]))
